@@ -1,7 +1,7 @@
 (* C05: the parser model never runs out of fuel: [parse ts] is [Ok], [Err] or [Unsup].
    Measure: 3 * (tokens left) + rank of the function; every call either consumes a token or goes
    to a function of lower rank. *)
-From Gv Require Import lib.Bytes lib.Gql C05.Lex C05.Parse C05.Limits C05.Spec C05.ProofsLimits C05.ProofsParse.
+From Gv Require Import lib.Bytes lib.Gql C05.Lex C05.Parse C05.Limits C05.Spec C05.ProofsLex C05.ProofsLimits C05.ProofsParse.
 From Coq Require Import Lia.
 Close Scope N_scope.
 Open Scope nat_scope.
@@ -68,4 +68,142 @@ Proof.
   - intros ts H. cbn [parse_value]. repeat step; try (apply IHl; simpl in *; lia); try (apply IHo; simpl in *; lia).
   - intros ts acc H. cbn [parse_value_list]. repeat step; try (apply IHl; lens; simpl in *; lia); oof_contra IHv.
   - intros ts acc H. cbn [parse_object_fields]. repeat step; try (apply IHo; lens; simpl in *; lia); oof_contra IHv.
+Qed.
+
+Lemma value_total1 : forall fuel ts, 3 * length ts < fuel -> parse_value fuel ts <> Oof.
+Proof. intros fuel. apply (value_total fuel). Qed.
+
+Lemma type_total : forall fuel ts, 3 * length ts < fuel -> parse_type fuel ts <> Oof.
+Proof.
+  induction fuel as [|f IH]; intros ts H; [lia|].
+  cbn [parse_type]. repeat step; oof_contra IH.
+Qed.
+
+Lemma args_total : forall fuel ts acc, 3 * length ts + 1 < fuel -> parse_args fuel ts acc <> Oof.
+Proof.
+  induction fuel as [|f IH]; intros ts acc H; [lia|].
+  cbn [parse_args]. repeat step; try (apply IH; lens; simpl in *; lia).
+  exfalso. match goal with E : _ = Oof |- _ => revert E end. apply value_total1. simpl in *. lia.
+Qed.
+
+Lemma opt_args_total : forall fuel ts, 3 * length ts < fuel -> parse_opt_args fuel ts <> Oof.
+Proof.
+  intros fuel ts H. unfold parse_opt_args. repeat step. apply args_total. simpl in *. lia.
+Qed.
+
+Lemma dirs_total : forall fuel ts acc, 3 * length ts + 1 < fuel -> parse_dirs fuel ts acc <> Oof.
+Proof.
+  induction fuel as [|f IH]; intros ts acc H; [lia|].
+  cbn [parse_dirs]. repeat step; try (apply IH; lens; simpl in *; lia).
+  exfalso. match goal with E : _ = Oof |- _ => revert E end. apply opt_args_total. simpl in *. lia.
+Qed.
+
+Lemma vardefs_total : forall fuel ts acc, 3 * length ts + 1 < fuel -> parse_vardefs fuel ts acc <> Oof.
+Proof.
+  induction fuel as [|f IH]; intros ts acc H; [lia|].
+  cbn [parse_vardefs]. repeat step; try (apply IH; lens; simpl in *; lia);
+    exfalso; match goal with E : _ = Oof |- _ => revert E end;
+    first [apply type_total; lens; simpl in *; lia | apply value_total1; lens; simpl in *; lia | apply dirs_total; lens; simpl in *; lia].
+Qed.
+
+(* the tails are not recursive themselves; [selset] is the recursive call at the same fuel *)
+Lemma field_tail_total : forall selset f alias nm r1,
+  3 * length r1 + 1 < f ->
+  (forall ts, length ts <= length r1 -> selset ts <> Oof) ->
+  field_tail selset f alias nm r1 <> Oof.
+Proof.
+  intros selset f alias nm r1 H HS. unfold field_tail. repeat step;
+    try (apply HS; lens; simpl in *; lia);
+    exfalso; match goal with E : _ = Oof |- _ => revert E end;
+    first [apply opt_args_total; lens; simpl in *; lia | apply dirs_total; lens; simpl in *; lia | apply HS; lens; simpl in *; lia].
+Qed.
+
+Lemma inline_tail_total : forall selset f tc r1,
+  3 * length r1 + 1 < f ->
+  (forall ts, length ts <= length r1 -> selset ts <> Oof) ->
+  inline_tail selset f tc r1 <> Oof.
+Proof.
+  intros selset f tc r1 H HS. unfold inline_tail. repeat step;
+    try (apply HS; lens; simpl in *; lia);
+    exfalso; match goal with E : _ = Oof |- _ => revert E end;
+    first [apply dirs_total; lens; simpl in *; lia | apply HS; lens; simpl in *; lia].
+Qed.
+
+Lemma sel_total : forall fuel,
+  (forall ts, 3 * length ts < fuel -> parse_selset fuel ts <> Oof) /\
+  (forall ts acc, 3 * length ts + 2 < fuel -> parse_sels fuel ts acc <> Oof) /\
+  (forall ts, 3 * length ts + 1 < fuel -> parse_field fuel ts <> Oof) /\
+  (forall ts, 3 * length ts + 2 < fuel -> parse_frag_sel fuel ts <> Oof).
+Proof.
+  induction fuel as [|f IH]; [repeat split; intros; lia|].
+  destruct IH as (IHset & IHsels & IHfield & IHfrag). repeat split.
+  - intros ts H. cbn [parse_selset]. repeat step. apply IHsels. simpl in *. lia.
+  - intros ts acc H. cbn [parse_sels]. repeat step; try (apply IHsels; lens; simpl in *; lia);
+      exfalso; match goal with E : _ = Oof |- _ => revert E end;
+      first [apply IHfield; simpl in *; lia | apply IHfrag; simpl in *; lia].
+  - intros ts H. cbn [parse_field]. repeat step;
+      apply field_tail_total; simpl in *; try lia; intros ts' Hl; apply IHset; simpl in *; lia.
+  - intros ts H. cbn [parse_frag_sel]. repeat step;
+      try (apply inline_tail_total; simpl in *; try lia; intros ts' Hl; apply IHset; simpl in *; lia).
+    exfalso. match goal with E : _ = Oof |- _ => revert E end. apply dirs_total. simpl in *. lia.
+Qed.
+
+Lemma operation_total : forall f k ts, 3 * length ts + 1 < f -> parse_operation f k ts <> Oof.
+Proof.
+  intros f k ts H. unfold parse_operation.
+  destruct (match ts with
+            | t :: r => if is_kind KIdent t then (Some (plit t), r) else (None, ts)
+            | [] => (None, ts) end) as [nm r1] eqn:En.
+  assert (Hr1 : length r1 <= length ts).
+  { destruct ts as [|t r]; [inversion En; subst; simpl; lia|].
+    destruct (is_kind KIdent t); inversion En; subst; simpl; lia. }
+  assert (Hv : match r1 with
+               | t :: r => if is_kind KLParen t then parse_vardefs f r [] else Ok [] r1
+               | [] => Ok [] r1 end <> Oof).
+  { repeat step. apply vardefs_total. simpl in *. lia. }
+  destruct (match r1 with
+            | t :: r => if is_kind KLParen t then parse_vardefs f r [] else Ok [] r1
+            | [] => Ok [] r1 end) as [vs r2| | |] eqn:Ev; try discriminate; [|contradiction].
+  assert (Hr2 : length r2 <= length r1).
+  { destruct r1 as [|t r]; [inversion Ev; subst; simpl; lia|].
+    destruct (is_kind KLParen t); [apply vardefs_len in Ev; simpl; lia|inversion Ev; subst; simpl; lia]. }
+  repeat step.
+  - exfalso. match goal with E : _ = Oof |- _ => revert E end. apply (proj1 (sel_total f)). lens. lia.
+  - exfalso. match goal with E : _ = Oof |- _ => revert E end. apply dirs_total. lia.
+Qed.
+
+Lemma fragment_total : forall f ts, 3 * length ts + 1 < f -> parse_fragment f ts <> Oof.
+Proof.
+  intros f ts H. unfold parse_fragment. repeat step.
+  - exfalso. match goal with E : _ = Oof |- _ => revert E end. apply (proj1 (sel_total f)). lens. simpl in *. lia.
+  - exfalso. match goal with E : _ = Oof |- _ => revert E end. apply dirs_total. simpl in *. lia.
+Qed.
+
+Lemma operation_len : forall f k ts d r, parse_operation f k ts = Ok d r -> length r <= length ts.
+Proof. intros. apply operation_shape in H. destruct H as (h & s & E & _). subst. rewrite !app_length. lia. Qed.
+Lemma fragment_len : forall f ts d r, parse_fragment f ts = Ok d r -> length r <= length ts.
+Proof. intros. apply fragment_shape in H. destruct H as (h & s & E & _). subst. rewrite !app_length. lia. Qed.
+
+Lemma defs_total : forall fuel ts acc, 3 * length ts + 2 < fuel -> parse_defs fuel ts acc <> Oof.
+Proof.
+  induction fuel as [|f IH]; intros ts acc H; [lia|].
+  cbn [parse_defs]. destruct ts as [|t r0]; [discriminate|].
+  repeat step; try (apply IH; lens; simpl in *; lia).
+  all: try (apply IH;
+            match goal with
+            | E : parse_operation _ _ _ = Ok _ _ |- _ => apply operation_len in E
+            | E : parse_fragment _ _ = Ok _ _ |- _ => apply fragment_len in E
+            end; simpl in *; lia).
+  all: exfalso; match goal with E : _ = Oof |- _ => revert E end;
+    first [apply (proj1 (sel_total f)); simpl in *; lia | apply operation_total; simpl in *; lia | apply fragment_total; simpl in *; lia].
+Qed.
+
+Theorem parse_total_proof : forall ts, parse ts <> Oof.
+Proof. intro ts. unfold parse, parse_fuel. apply defs_total. lia. Qed.
+
+Theorem parse_bytes_total_proof : forall b, (len b < two32)%N -> parse_bytes b <> Oof.
+Proof.
+  intros b Hb. unfold parse_bytes, lex.
+  destruct (tokenize b) eqn:E; [apply parse_total_proof|].
+  exfalso. revert E. apply ProofsLex.tokenize_total_proof. exact Hb.
 Qed.
